@@ -1,0 +1,24 @@
+//go:build verif
+
+package swarm
+
+import (
+	ma "github.com/multiformats/go-multiaddr"
+)
+
+// Read-only accessors for external runtime monitors. Compiled only with the `verif` build tag.
+
+// VerifBlackHoleDetector exposes the unexported blackHoleDetector.
+type VerifBlackHoleDetector struct{ d *blackHoleDetector }
+
+func NewVerifBlackHoleDetector(udp, ipv6 *BlackHoleSuccessCounter, readOnly bool) *VerifBlackHoleDetector {
+	return &VerifBlackHoleDetector{d: &blackHoleDetector{udp: udp, ipv6: ipv6, readOnly: readOnly}}
+}
+
+func (v *VerifBlackHoleDetector) FilterAddrs(addrs []ma.Multiaddr) (valid, blackHoled []ma.Multiaddr) {
+	return v.d.FilterAddrs(addrs)
+}
+
+func (v *VerifBlackHoleDetector) RecordResult(addr ma.Multiaddr, success bool) {
+	v.d.RecordResult(addr, success)
+}
